@@ -245,13 +245,14 @@ class Stm:
                     v = self.opts["attr_vars"][(y.value.id, y.attr)][0]
                     if v in scope and v not in exclude and v not in used and v not in self.ctx["args"]:
                         used.append(v)
+        used.sort(key=lambda v: self.ctx.get("order", {}).get(v, (10 ** 9, 0)))     # in order of first binding in the source
         return [self.x.local(v) for v in used]
 
     def lift(self, kind, caps, text):
         """emit an auxiliary definition (lambda lifting of a loop body / condition); returns the applied name"""
         name = f"{self.t.name}.{kind}"
         capb = " ".join(f"({c} : _)" for c in caps)
-        self.ctx["aux"].append(f"def {name} {self.binders()} {capb} :=\n{text}\n")
+        self.ctx["aux"].append(f"@[simp] def {name} {self.binders()} {capb} :=\n{text}\n")
         return f"({name} {self.param_names()} {' '.join(caps)})".replace("  ", " ").replace(" )", ")")
 
     # which names does a statement list assign (in order of first assignment)
@@ -483,9 +484,21 @@ class FT(Target):
     def render(self, repo):
         tree = ast.parse(open(os.path.join(repo, self.file), encoding="utf-8").read())
         fn = find_func(tree, self.cls, self.func, self.setter)
+        # default values the translation relies on (e.g. `comparator=np.amin`)
+        args = fn.args.args
+        defaults = dict(zip([a.arg for a in args[len(args) - len(fn.args.defaults):]], fn.args.defaults))
+        for k, want in self.opts.get("defaults", {}).items():
+            if k not in defaults or E(self, False).dotted(defaults[k]) != want:
+                raise Unsupported(f"default of {k} is not {want}")
         st = Stm(self, self.monadic)
         scope = {a.arg for a in fn.args.args} | self.scope
         st.ctx["args"] = set(scope)
+        order = {}
+        for y in ast.walk(fn):
+            if isinstance(y, ast.Name) and isinstance(y.ctx, ast.Store):
+                order.setdefault(y.id, (y.lineno, y.col_offset))
+                order[y.id] = min(order[y.id], (y.lineno, y.col_offset))
+        st.ctx["order"] = order
         body = st.seq(list(fn.body), scope, None, 1, fn_tail=True)
         aux = "".join(a + "\n" for a in st.ctx["aux"])
         binders = " ".join(f"({p})" for _, p in self.params)
@@ -552,7 +565,7 @@ def targets():
     ts = [
         FT("Lanelet_compute_polyline_cumsum_dist", "_compute_polyline_cumsum_dist",
            [(None, f"norm : {P} → Rat"), ("polylines", f"polylines : List (List {P})")], "List Rat",
-           opts={"norm": "norm", "amin": {"comparator"}},
+           opts={"norm": "norm", "amin": {"comparator"}, "defaults": {"comparator": "np.amin"}},
            doc="`norm` stands for the Euclidean norm of a difference vector; `comparator` is its default np.amin"),
         FT("Lanelet_distance", "distance",
            [(None, f"norm : {P} → Rat"), (None, "self__distance : Option (List Rat)"), (None, f"center : List {P}")],
